@@ -1,4 +1,6 @@
 import Yomm2.Proofs.SrcCompare
+import Yomm2.Proofs.SrcBest
+import Yomm2.Props.C03
 import Yomm2.Proofs.Specificity
 /-!
 # C01 / C02 / C06: the ordering `best` uses, for the text of `compiler.hpp`
@@ -37,5 +39,26 @@ example : run (fun x y => x == y || y == 0) 3 CompareSrc.is_more_specific [1, 2]
   have h := is_more_specific_source_is_model (fun x y => x == y || y == 0) [1, 2] [0, 2] rfl
   rw [show [1, 2].length + 1 = 3 from rfl] at h
   rw [h]; congr 1
+
+
+/-- the translated `best` computes the function the end-to-end theorem is about -/
+theorem best_source_is_model {α : Type} [DecidableEq α] (ms : α → α → Bool) (cands : List α) :
+    Pick.run ms BestSrc.best cands = .returned (Yomm2.best ms cands) :=
+  Proofs.SrcBest.best_src ms cands
+
+/-- **the text of `best`**: for any asymmetric ordering, if one candidate is more specific than every other one
+    the body of `best` as it stands in the header returns exactly that candidate — whatever the order of the
+    candidates (no incremental elimination: the defect D2 cannot come back unnoticed) -/
+theorem C01_source_best_returns_the_dominating {α : Type} [DecidableEq α] (ms : α → α → Bool)
+    (asym : ∀ a b, ms a b = true → ms b a = false) (cands : List α) (d : α)
+    (h : Props.C03.Dominates ms cands d) : Pick.run ms BestSrc.best cands = .returned [d] := by
+  rw [best_source_is_model, Props.C03.best_of_dominates ms asym cands d h]
+
+/-- and when it returns a single candidate, that candidate is more specific than every other one -/
+theorem C01_source_best_single_dominates {α : Type} [DecidableEq α] (ms : α → α → Bool) (cands : List α) (d : α)
+    (h : Pick.run ms BestSrc.best cands = .returned [d]) : Props.C03.Dominates ms cands d ∨ cands = [d] := by
+  rw [best_source_is_model] at h
+  have : Yomm2.best ms cands = [d] := by injection h
+  exact Props.C03.dominates_of_best ms cands d this
 
 end Yomm2.Props.C01src
